@@ -147,6 +147,9 @@ def parse_location_entries(location_bytes, first_line):
             )
             start_line = last_line + decode_signed_varint(start_line_delta)
             end_line = start_line + end_line_delta
+            # The long form stores column + 1 (so that 0 can mean "no column")
+            start_column -= 1
+            end_column -= 1
         else:  # code == 15, no location
             start_line = None
             end_line = None
